@@ -345,7 +345,7 @@ func GenSession(prop string, seed uint64, thorough bool) *Scenario {
 			// while upgrading, a client holds back its writes (pongs, v3 pings) until the
 			// server's 100 ms check released the poll: heartbeat settings tighter than that
 			// make a conformant client time out, which is not a fault-free scenario
-			if (c.EIO == 4 && pt < 250+8*c.LatencyMs) || (c.EIO != 4 && pi+pt-c.V3PingMs < 250+8*c.LatencyMs) {
+			if (c.EIO == 4 && pt < 250+8*c.LatencyMs) || (c.EIO != 4 && pi+pt-c.V3PingMs-maxInt(c.PongDelayMs) < 250+8*c.LatencyMs) {
 				c.Upgrade = ""
 			}
 			// an upgrade needs the 100 ms check tick to release the poll: an upgrade timeout
@@ -379,7 +379,7 @@ func GenSession(prop string, seed uint64, thorough bool) *Scenario {
 			if c.CandKind != "" {
 				// same constraints as for the conformant upgrade: a client that may end up switching holds
 				// back its writes until the 100 ms check released its poll
-				if (c.EIO == 4 && pt < 250+8*c.LatencyMs) || (c.EIO != 4 && pi+pt-c.V3PingMs < 250+8*c.LatencyMs) {
+				if (c.EIO == 4 && pt < 250+8*c.LatencyMs) || (c.EIO != 4 && pi+pt-c.V3PingMs-maxInt(c.PongDelayMs) < 250+8*c.LatencyMs) {
 					c.CandKind = ""
 				}
 				if c.CandKind != "" && o.UpgradeTimeoutMs != 0 && o.UpgradeTimeoutMs < 300+8*c.LatencyMs {
@@ -671,4 +671,14 @@ func genCandScript(g *G, upgradeTimeoutMs int) []CandOp {
 		}
 	}
 	return s
+}
+
+func maxInt(xs []int) int {
+	m := 0
+	for _, x := range xs {
+		if x > m {
+			m = x
+		}
+	}
+	return m
 }
